@@ -12,6 +12,7 @@ import Driver.Containers
 import Driver.Displaced
 import Driver.Closure
 import Driver.Atom
+import Driver.Intern
 open Driver
 
 structure St where
@@ -39,6 +40,7 @@ def dispatch (s : St) (line : String) : St × String :=
   | "dt" :: rest => let (p, o) := dtStep s.dt rest; ({ s with dt := p }, o)
   | "cl" :: rest => (s, clStep rest)
   | "at" :: rest => (s, atStep rest)
+  | "hc" :: rest => (s, hcStep rest)
   | _ => (s, "bad-op")
 
 partial def loop (h : IO.FS.Stream) (out : IO.FS.Stream) (s : St) : IO Unit := do
